@@ -801,6 +801,17 @@ def fam_pairs(names, kinds):
     return out
 
 
+def fam_triples(kinds):
+    """Three top-level entries (thorough): the slot 'a', a directory, and a third name that is unsafe,
+    aliases the directory's child, or is a link."""
+    out = []
+    for k in kinds:
+        for second in (E(b"dir", "D", (E(b"a", "f"),)), E(b"dir", "D", (E(b".git", "f"),)), E(b"dir", "D", (E(b"a", "L:updir"),))):
+            for third in (E(b"git~1", "f"), E(b".git", "f"), E(b"..", "L:updir"), E(b"dir/a", "x")):
+                out.append(canon((E(b"a", k), second, third)))
+    return out
+
+
 POISON = E(b"git~1", "f")  # sorts after 'a' and 'dir'; refused under the default configuration
 POISON_NESTED = E(b"dir", "D", (E(b".git", "f"),))  # refused in every configuration; sorts after 'a'
 
@@ -1069,6 +1080,8 @@ def run(ctx):
     famNames = _dedupe(fam_single(LEAF_KINDS) + fam_nested(NAMES, NAMES, few if q else nestedT))  # the names matrix
     famShapes = fam_same_name(mid if q else LEAF_KINDS) + fam_slash_name(mid if q else LEAF_KINDS)
     famShapes += fam_pairs([b"a", b".git", b"git~1", b"dir"] if q else [b"a", b"dir", b".git", b".GIT", b"git~1", b"..", b"a/b", ABSNAME], few if q else mid)
+    if not q:
+        famShapes += fam_triples(mid)
     famA = _dedupe(famNames + famShapes)
     entryA = ["checkout", "reset_hard", "stash_apply", "patch_add", "am", "checkout_paths"] if q else \
         ["checkout", "checkout_force", "switch", "reset_hard", "stash_apply", "patch_add", "patch_del", "am", "checkout_paths", "restore_paths"]
@@ -1125,7 +1138,7 @@ def run(ctx):
              "a transition restores the state, runs one real dulwich operation on a tree built from raw bytes and compares recursive snapshots "
              "of everything outside the work tree and of .git minus the bookkeeping allow-list; unsafe paths judged by an independent model "
              "cross-checked against C git.",
-        bounds={"names": len(NAMES), "leaf_kinds": len(LEAF_KINDS), "link_targets": len(LINK_IDS), "max_entries_per_level": 2, "max_tree_depth": 2,
+        bounds={"names": len(NAMES), "leaf_kinds": len(LEAF_KINDS), "link_targets": len(LINK_IDS), "max_entries_per_level": 2 if q else 3, "max_tree_depth": 2,
                 "family_A_trees": len(famA), "family_A_names_matrix": len(famNames)},
     )
     for s in famA[:3] + uniB[:3]:
